@@ -4,4 +4,5 @@ Big = 0
 INIT Init
 NEXT Next
 INVARIANT I_RulesGiveInvariants
+INVARIANT I_LdsRulesGiveInvariants
 CHECK_DEADLOCK FALSE
